@@ -399,6 +399,22 @@ func newRinst(cfg *Cfg) (*rinst, string) {
 	return in, res
 }
 
+func (rn *runner) reqEvent(in *rinst, op *Op) {
+	o := in.e.serve(in.r, mkRequest(op.Method, op.Path, op.Host, op.Hdr))
+	rn.stats.exec++
+	hv := func(k string) string {
+		v := o.w.sent.Values(k)
+		if v == nil {
+			v = []string{}
+		}
+		return jarr(v)
+	}
+	rn.emit(obj("ev", js("req"), "method", js(op.Method), "path", js(op.Path), "hdr", jmap(op.Hdr), "r", replyJSON(o),
+		"resp", obj("acao", hv("Access-Control-Allow-Origin"), "acac", hv("Access-Control-Allow-Credentials"),
+			"aceh", hv("Access-Control-Expose-Headers"), "acam", hv("Access-Control-Allow-Methods"),
+			"acah", hv("Access-Control-Allow-Headers"), "acma", hv("Access-Control-Max-Age"), "vary", hv("Vary"))))
+}
+
 func isRemoval(op *Op) bool { return op.Op == "remove" || op.Op == "clean" }
 
 func (rn *runner) runRouterCase(c *Case) {
@@ -418,6 +434,11 @@ func (rn *runner) runRouterCase(c *Case) {
 		return
 	}
 	rn.stats.cases++
+	defer func() {
+		for i := range c.Reqs {
+			rn.reqEvent(in, &c.Reqs[i])
+		}
+	}()
 	for i := range c.Ops {
 		op := &c.Ops[i]
 		last := i == len(c.Ops)-1
@@ -505,6 +526,8 @@ func (rn *runner) runRouterCase(c *Case) {
 			var ok bool
 			res, _ := guard(func() { ok = mux.CheckSyntax(op.Pat) == nil })
 			rn.emit(obj("ev", js("syntax"), "pat", js(op.Pat), "ok", jbool(ok), "res", js(res), "re", reTable(op.Pat)))
+		case "req": // a request with headers; the CORS response headers are recorded as sent (C11 / C12)
+			rn.reqEvent(in, op)
 		case "serve": // an explicit single request (drivers with arbitrary bytes)
 			o := in.e.serve(in.r, mkRequest(op.Method, op.Path, op.Host, op.Hdr))
 			rn.stats.exec++
